@@ -113,7 +113,7 @@ class Exc:
         self.queued: set = set()
         self._try_maps: dict[int, dict[int, list]] = {}
         self.n_sites = 0
-        self.arm_intstr = False  # assumption A-INTSTR (see props/c02.py)
+        self.arm_intstr = True  # str() of an int beyond the int/str conversion limit (also inside a list/dict)
         self.n_calls = 0
         self.n_unresolved = 0
         self.prim_counts: dict[str, int] = {}
@@ -653,8 +653,14 @@ def primitives(x: Exc, f: FuncInfo, node: ast.AST, st, flow: KindFlow):
                 yield "int()", _argtext(args[0]) + "\x00" + "".join(sorted(k)), sorted(set(ex))
         elif plain and name == "str" and args and x.arm_intstr:
             k = K(args[0])
-            if k != ALL and "O" not in k and "I" in k:
+            if k != ALL and "O" not in k and k & _k("ILD"):
                 yield "str(int)", _argtext(args[0]) + "\x00" + "".join(sorted(k)), [VE]
+        elif plain and name == "sum" and args:
+            a0 = args[0]
+            ek = K(a0.elt) if isinstance(a0, (ast.GeneratorExp, ast.ListComp)) else None
+            if ek is not None and "C" in ek and ek != ALL:
+                # Decimal('Infinity') + Decimal('-Infinity'), or an exponent overflow
+                yield "sum(Decimal)", _argtext(a0.elt) + "\x00" + "".join(sorted(ek)), [DIO, DOV]
         elif plain and name == "float" and args:
             k = K(args[0])
             ex = []
